@@ -152,6 +152,17 @@ CHECKS = {
     note="conditional on C09/C10/C17; N<=3 designs, K = m cones (VOGP), orthant (ε-PAL); " + REAL,
     technique="inductive invariant checking by symbolic execution of the real phase code + SMT (QF_LRA)",
     design_ref="DESIGN.md §3 C01/C05"),
+ "C18": dict(
+    text="Cell level: the real refine_design/generate_child_designs code on a cell with symbolic bounds — 2^d children, half "
+         "side lengths, centre points, depth+1, parent's region, coverage of the parent and pairwise interior-disjointness "
+         "proved by z3 (any cell, hence any depth, by induction), depth gate checked. Run level: every path of k real "
+         "VOGP_AD.run_one_step() calls from the root (every refine / sample / discard / cover choice): active nodes are "
+         "leaves, leaves tile the unit cube, a refined node is replaced by its children in the same set, members of P are at "
+         "the maximum depth and appear only after the latch.",
+    note=REAL + "d<=3 (cell level); d=1, max depth 3, 3-4 steps (run level); refinement decision nondeterministic below the "
+         "depth gate; Vh formula and real GP behaviour outside",
+    technique="symbolic execution of the real numpy code on z3 reals + SMT (QF_LRA); exhaustive path exploration of the run loop",
+    design_ref="DESIGN.md §3 C18"),
 }
 
 _WIP = "check not built yet (work in progress; will be claimed once its harness exists)"
